@@ -107,11 +107,25 @@ def split_known(ctx):
     index = {}
     for k in known.get("findings", []):
         index[(k["property"], k["rule"], k["file"], k["function"], k["construct"])] = k
-    hits, new = [], []
+    hits, new, pending = [], [], []
+    matched = set()
     for f in ctx.findings:
         k = index.get(f.key())
         if k is not None:
             hits.append((f, k))
+            matched.add(id(k))
+        else:
+            pending.append(f)
+    # a recorded finding whose construct now sits in another function of the same file (the defective statements were
+    # moved by a refactoring, e.g. two private helpers merged): still the same finding - but only if it was not also
+    # found at its recorded place, so a second occurrence elsewhere is reported as new
+    for f in pending:
+        key = f.key()
+        cand = [k for kk, k in index.items() if kk[0] == key[0] and kk[1] == key[1] and kk[2] == key[2] and kk[4] == key[4]
+                and id(k) not in matched]
+        if cand:
+            hits.append((f, cand[0]))
+            matched.add(id(cand[0]))
         else:
             new.append(f)
     return hits, new
